@@ -156,6 +156,7 @@ type Spelling struct {
 	LegacyDefs     bool  // "definitions" + "#/definitions/"
 	BothDefs       bool  // both keywords with identical content
 	UpperRefPrefix bool  // "#/$DEFS/" (prefix match is case-insensitive)
+	PointerOther   bool  // pointers name the other container keyword than the one the document uses
 	TypeAsList     bool  // every single type as one-element list
 	AnyAsTrue      bool  // true instead of {} where allowed
 	LegacyDeps     bool  // "dependencies" instead of "dependentSchemas" (inert)
@@ -370,11 +371,12 @@ func renderRef(ref string, sp *Spelling) string {
 		return ref
 	}
 	prefix := canon
-	if sp.LegacyDefs {
+	legacyPtr := sp.LegacyDefs != sp.PointerOther
+	if legacyPtr {
 		prefix = "#/definitions/"
 	}
 	if sp.UpperRefPrefix {
-		if sp.LegacyDefs {
+		if legacyPtr {
 			prefix = "#/Definitions/"
 		} else {
 			prefix = "#/$DEFS/"
